@@ -107,9 +107,22 @@ impl WorkerState {
         match self.running_tasks.find_mut(&task_id) {
             None => {
                 /* This may happen that task was computed or when work steal
-                  was successful
+                  was successful; or the task may be waiting in the prefill backlog
                 */
-                log::debug!("Task not found");
+                let mut found = false;
+                self.prefilled_tasks.values_mut().for_each(|tasks| {
+                    tasks.retain(|t| {
+                        if t.id == task_id {
+                            found = true;
+                            false
+                        } else {
+                            true
+                        }
+                    })
+                });
+                if !found {
+                    log::debug!("Task not found");
+                }
             }
             Some(task) => task.cancel(),
         }
